@@ -1,22 +1,25 @@
 PROP = {
  "id": "C02",
  "specs": [
-  "specs.meshdata"
+  "specs.meshdata",
+  "specs.edges_from_faces"
  ],
  "functions": [
   "mouette.mesh.mesh_data.RawMeshData._compute_dimensionality",
   "mouette.mesh.mesh_data.RawMeshData.dimensionality",
   "mouette.mesh.mesh_data.RawMeshData._generate_face_corners",
-  "mouette.mesh.mesh_data.RawMeshData._generate_cell_corners"
+  "mouette.mesh.mesh_data.RawMeshData._generate_cell_corners",
+  "mouette.mesh.mesh_data.RawMeshData._complete_edges_from_faces#sides"
  ],
  "level": "other",
- "explanation": "Deductive part: the dimensionality rule (class = highest-dimensional element present) the generation of face corners (one record per face-vertex incidence, in element order, with vertex and owner face; a stale table is regenerated) and of cell corners (all three cases: both tables generated, owners only, tables given) are proved for all inputs. Edge filtering / completion with attribute re-indexing, face completion from cells, hard-edge flags, idempotence of rebuilding and independence of the row container type are decided only by the bounded native contract (not a proof).",
+ "explanation": "Deductive part: the dimensionality rule (class = highest-dimensional element present) the generation of face corners (one record per face-vertex incidence, in element order, with vertex and owner face; a stale table is regenerated) and of cell corners (all three cases: both tables generated, owners only, tables given) are proved for all inputs. The completion of edges from faces (region contract on the real nested loop): declared edges stay in place, every non-degenerate side of every face is in the edge list afterwards, every appended edge is a sorted pair, a side of some face and different from every earlier edge (a shared or already declared side is stored once). Edge filtering with attribute re-indexing, face completion from cells, hard-edge flags, idempotence of rebuilding and independence of the row container type are decided only by the bounded native contract (not a proof).",
  "trusted_base": [
   "A1 CPython executes the parsed AST as pyvc models it",
   "A2 floats are mathematical reals",
   "A3 z3 is sound",
   "A6 builtin sum == last prefix sum (total_len axiom), monotonicity of prefix sums (induction, not re-proved)",
-  "DataContainer methods inlined from the real source; attribute tables empty"
+  "DataContainer methods inlined from the real source; attribute tables empty",
+  "edge completion region: DataContainer.append through a trusted contract (one row appended; attribute alignment is C05); the lookup set equals the stored edges on entry (established by the set comprehension before the region: edges must already be sorted pairs for that, which _prepare_edges only guarantees afterwards - precondition, not verified)"
  ],
  "bounded": [
   {
